@@ -300,8 +300,9 @@ def main():
         "wall_s": round(time.time() - t0, 2),
         "violations": len(violations) + len(standin_viol),
     }
-    os.makedirs(os.path.join(HERE, "evidence"), exist_ok=True)
-    with open(os.path.join(HERE, "evidence", f"{prop}.json"), "w") as f:
+    evdir = os.path.join(HERE, os.environ.get("PYVC_EVIDENCE_DIR", "evidence"))   # mutation rehearsals write elsewhere
+    os.makedirs(evdir, exist_ok=True)
+    with open(os.path.join(evdir, f"{prop}.json"), "w") as f:
         json.dump(ev, f, indent=1, default=str)
     print(f"SUMMARY property={prop} tier={a.tier} obligations={len(obs)} discharged={n_dis} failed={len(violations)} "
           f"undecided={len(undecided)} out_of_reach={len(S.unsupported)} known={len(seen_known)} "
